@@ -177,7 +177,7 @@ def _systime_now(eng, st, args, dty, callee, m):
     return t
 
 
-@summary(r"^std::time::Instant::(duration_since|saturating_duration_since)$", "Instant::duration_since (saturating at zero)")
+@summary(r"^(std|tokio)::time::Instant::(duration_since|saturating_duration_since)$", "Instant::duration_since (saturating at zero)")
 def _duration_since(eng, st, args, dty, callee, m):
     a = deref(eng, st, args[0])
     b = deref(eng, st, args[1])
@@ -201,7 +201,7 @@ def _sys_duration_since(eng, st, args, dty, callee, m):
     return VEnum(RESULT, z3.If(ge, bv(0, 8), bv(1, 8)), {0: (time_sub(a, b),), 1: (VOpaque("SystemTimeError"),)})
 
 
-@summary(r"^std::time::Instant::elapsed$", "Instant::elapsed = now() - self (saturating)")
+@summary(r"^(std|tokio)::time::Instant::elapsed$", "Instant::elapsed = now() - self (saturating)")
 def _elapsed(eng, st, args, dty, callee, m):
     now = _instant_now(eng, st, [], None, callee, m)
     a = deref(eng, st, args[0])
@@ -236,6 +236,14 @@ def _time_ord(eng, st, args, dty, callee, m):
     b = deref(eng, st, args[1])
     o = ordering(time_lt(a, b), time_eq(a, b))
     return o if m.group(4) == "cmp" else some(o)
+
+
+@summary(r"^<(std::time::)?(Duration|Instant|SystemTime) as (std::cmp::)?Ord>::(min|max)$", "Ord::min / max for Duration/Instant")
+def _time_minmax(eng, st, args, dty, callee, m):
+    a = deref(eng, st, args[0])
+    b = deref(eng, st, args[1])
+    pick_a = z3.Or(time_lt(a, b), time_eq(a, b)) if m.group(4) == "min" else time_lt(b, a)
+    return merge(pick_a, a, b)
 
 
 @summary(r"^(std::time::)?Duration::as_secs_f64$", "Duration::as_secs_f64 = secs as f64 + nanos as f64 / 1e9 (std's own formula)")
@@ -299,6 +307,19 @@ def _dur_arith(eng, st, args, dty, callee, m):
         return time_add(a, b, "Duration")
     eng.oblige(st, "panic:Duration::sub underflow", time_lt(a, b))
     return time_sub(a, b)
+
+
+@summary(r"^<(std::time::)?Duration as Mul<u32>>::mul$", "Duration * u32 for a small constant factor (repeated addition; overflow panic becomes an obligation)")
+def _dur_mul(eng, st, args, dty, callee, m):
+    a = deref(eng, st, args[0])
+    k = as_int(args[1])
+    if k is None or k > 16:
+        raise SymError("Duration * u32 with a symbolic or large factor")
+    eng.oblige(st, "panic:Duration * u32 overflow", z3.UGE(a.f[0], bv((1 << 63) // max(k, 1), 64)))
+    r = ZERO_DUR
+    for _ in range(k):
+        r = time_add(r, a, "Duration")
+    return r
 
 
 # ------------------------------------------------------------------------------------- numerics
@@ -778,6 +799,28 @@ def _atomic_load(eng, st, args, dty, callee, m):
 def _atomic_store(eng, st, args, dty, callee, m):
     eng.store(st, args[0], args[1])
     return UNIT
+
+
+ONESHOT_RX_ALIVE = z3.Function("oneshot_rx_alive", z3.BitVecSort(64), z3.BoolSort())
+
+
+@summary(r"^tokio::sync::oneshot::channel::<.*>$", "oneshot::channel: a sender / receiver pair sharing a fresh channel identity")
+def _oneshot_channel(eng, st, args, dty, callee, m):
+    c = eng.fresh_bv("oneshot", 64)
+    return VStruct([VStruct([c], "OneshotSender"), VStruct([c], "OneshotReceiver")])
+
+
+@summary(r"^tokio::sync::oneshot::Sender::<.*>::send$",
+         "oneshot::Sender::send: the delivery (path condition, channel identity, value) is recorded; Ok iff the receiver is still alive (uninterpreted predicate of the channel)")
+def _oneshot_send(eng, st, args, dty, callee, m):
+    tx = deref(eng, st, args[0])
+    if not (isinstance(tx, VStruct) and tx.ty == "OneshotSender"):
+        raise SymError(f"oneshot send on {tx!r}")
+    if not hasattr(eng, "deliveries"):
+        eng.deliveries = []
+    eng.deliveries.append({"pc": st.pc, "chan": tx.f[0], "value": args[1]})
+    alive = ONESHOT_RX_ALIVE(tx.f[0])
+    return VEnum(RESULT, z3.If(alive, bv(0, 8), bv(1, 8)), {0: (UNIT,), 1: (args[1],)})
 
 
 @summary(r"^<(std::option::)?Option<.*> as Default>::default$", "Option::default = None")
